@@ -6,6 +6,17 @@ Implementation side: the real `mokapot.read_fasta` on real FASTA text (and the r
 `.peptide_map / .shared_peptides / .protein_map` (and `.has_decoys`).
 Model side: driver op `group` (Lean model of read_fasta/_group_proteins), `gspec`
 (the declarative characterisation evaluated directly), `gwf` (well-formedness).
+
+Extension (GAPS-C16.md):
+* `groupseq` — the model from the parsed (name, sequence) entries on: Lean digest model of C17 +
+  grouping + the code's decoy test by prefix.  The peptide sets it derives are an oracle that is
+  independent of mokapot (they must equal the ones `mokapot.digest` gives), and the result of the
+  real `read_fasta` is compared with it.
+* `gdirect` / `gdspec` / `gdwf` — the anchored `_group_proteins(proteins, peptides)` called
+  directly on dicts in arbitrary insertion order: both return values (`grouped`, the mutated
+  `peptides`) against the spec and the model.
+* input forms of `read_fasta`: compiled-regex enzyme, str / list / tuple / Path file argument,
+  keyword arguments omitted where the documented default is meant.
 """
 from __future__ import annotations
 
@@ -24,7 +35,9 @@ from common import a_bool, a_str, dec, deep, req
 
 RULE = (
     "cases = (protein/peptide incidence structure realised as FASTA sequences, entry order, names with target/"
-    "decoy prefixes, digest parameters, FASTA formatting, number of files); each case is also run under "
+    "decoy prefixes, digest parameters, FASTA formatting, number of files, form of the enzyme / file / keyword "
+    "arguments) plus direct calls of _group_proteins on (proteins dict, peptides dict) in random insertion "
+    "orders; each FASTA case is also run under "
     "permuted entry orders and other PYTHONHASHSEEDs; distinct = distinct (incidence structure in processing "
     "order, decoy pattern); non-trivial = at least two proteins with peptides and (a group with >= 2 members "
     "or a shared peptide); thorough adds the exhaustive sweep over all incidence structures with <= 4 "
@@ -33,6 +46,13 @@ RULE = (
 
 AA = "ACDEFGHILMNPQSTVWY"  # no K / R: peptides are cut only where we put a K
 PREFIXES = ["decoy_", "decoy_", "rev_", "DECOY-", "d", "##"]
+# documented defaults of read_fasta (docstring / signature as published), written down here
+# independently of the code: a keyword equal to its default may be omitted from the call
+DEFAULTS = dict(enzyme="[KR]", missed_cleavages=2, clip_nterm_methionine=False, min_length=6, max_length=50,
+                semi=False)
+DEFAULT_PREFIX = "decoy_"
+# the enzymes of the generator as (cleavage residues, blocking next residues) for the Lean digest model
+ENZ = {"[KR]": ("KR", ""), "K": ("K", ""), "[KR](?!P)": ("KR", "P")}
 _TMP = None
 
 
@@ -54,16 +74,20 @@ def cleanup():
 # ----------------------------------------------------------------------------
 # case generation
 # ----------------------------------------------------------------------------
-def pep_string(i, rng=None, body=5, lead_m=False):
-    """distinct K-terminated peptide number i (base-18 digits over AA)"""
+def pep_string(i, rng=None, body=5, lead_m=False, term="K", lead_p=False):
+    """distinct peptide number i (base-18 digits over AA) ending in the cleavage residue `term`;
+    `lead_p`: its first residue is P (blocks the cut before it under `[KR](?!P)`; the leading
+    base-18 digit is 0 for every i used, so the strings stay distinct)"""
     s = ""
     x = i
     for _ in range(body):
         s = AA[x % len(AA)] + s
         x //= len(AA)
+    if lead_p:
+        s = "P" + s[1:]
     if lead_m:
         s = "M" + s
-    return s + "K"
+    return s + term
 
 
 def gen_incidence(rng, big=False):
@@ -154,11 +178,14 @@ def gen_case(rng, big=False, allow_dups=False):
     n = len(rows)
     prefix = rng.choice(PREFIXES)
     names, dmode, nstyle = gen_names(rng, n, prefix, allow_dups)
-    dg = rng.choice(["exact", "exact", "exact", "mc", "semi", "clip", "len"])
+    dg = rng.choice(["exact", "exact", "exact", "mc", "semi", "clip", "len", "default"])
     body = rng.choice([3, 5, 5, 7])
     digest = dict(enzyme="[KR]", mc=0, clip=False, minl=rng.choice([1, 2, body + 1]), maxl=50, semi=False)
     lead_m = False
-    if dg == "mc":
+    if dg == "default":  # every digest option at its documented default
+        body = rng.choice([5, 5, 7])
+        digest = dict(enzyme="[KR]", mc=2, clip=False, minl=6, maxl=50, semi=False)
+    elif dg == "mc":
         digest["mc"] = rng.choice([1, 2])
     elif dg == "semi":
         digest["semi"] = True
@@ -170,9 +197,14 @@ def gen_case(rng, big=False, allow_dups=False):
     elif dg == "len":
         digest["maxl"] = rng.choice([body + 1, 2 * body + 2])
         digest["mc"] = 1
-    if rng.random() < 0.15:
+    if dg != "default" and rng.random() < 0.15:
         digest["enzyme"] = rng.choice(["K", "[KR](?!P)"])
-    peps = [pep_string(j, body=body, lead_m=lead_m and rng.random() < 0.5) for j in range(m)]
+    # residues that tell the enzymes apart: R-terminated peptides (not cut by `K`), peptides starting
+    # with P (not cut off under `[KR](?!P)`); always present when the enzyme is not the default one
+    pepstyle = rng.choice(["K", "K", "KR", "P", "KRP"] if digest["enzyme"] == "[KR]" else ["KR", "P", "KRP"])
+    peps = [pep_string(j, body=body, lead_m=lead_m and rng.random() < 0.5,
+                       term=rng.choice("KR") if "R" in pepstyle else "K",
+                       lead_p="P" in pepstyle and rng.random() < 0.4) for j in range(m)]
     entries = []
     for nm, r in zip(names, rows):
         r = list(r)
@@ -183,7 +215,13 @@ def gen_case(rng, big=False, allow_dups=False):
         entries.append([nm, seq])
     fmt = dict(wrap=rng.choice([0, 0, 60, 7, 1]), desc=rng.random() < 0.4, nfiles=rng.choice([1, 1, 1, 2, 3]),
                trail=rng.random() < 0.7)
-    return dict(entries=entries, prefix=prefix, digest=digest, fmt=fmt, pat=pat, dmode=dmode, dg=dg, nstyle=nstyle)
+    # forms of the call: how the enzyme, the file(s) and the keywords are handed over
+    call = dict(enz=rng.choice(["str", "str", "compiled"]),
+                files=rng.choice(["str", "str", "path", "list", "tuple"]) if fmt["nfiles"] == 1
+                else rng.choice(["list", "tuple"]),
+                omit=rng.random() < 0.5)
+    return dict(entries=entries, prefix=prefix, digest=digest, fmt=fmt, pat=pat, dmode=dmode, dg=dg, nstyle=nstyle,
+                call=call, pepstyle=pepstyle)
 
 
 def fasta_texts(case, entries):
@@ -233,9 +271,20 @@ def impl_read(case, entries, tag="a"):
         with open(p, "w") as fh:
             fh.write(t)
         paths.append(p)
-    arg = paths[0] if len(paths) == 1 else paths
+    call = case.get("call") or dict(enz="str", files="str" if len(paths) == 1 else "list", omit=False)
+    form = call["files"]
+    if len(paths) > 1 and form in ("str", "path"):
+        form = "list"
+    arg = {"str": paths[0], "path": Path(paths[0]), "list": list(paths), "tuple": tuple(paths)}[form]
+    kw = dict(digest_kwargs(case), decoy_prefix=case["prefix"])
+    if call["omit"]:  # leave out what equals the documented default
+        kw = {k: v for k, v in kw.items() if v != dict(DEFAULTS, decoy_prefix=DEFAULT_PREFIX)[k]}
+    if call["enz"] == "compiled" and "enzyme" in kw:
+        import re
+
+        kw["enzyme"] = re.compile(kw["enzyme"])
     try:
-        pr = mokapot.read_fasta(arg, decoy_prefix=case["prefix"], **digest_kwargs(case))
+        pr = mokapot.read_fasta(arg, **kw)
     except Exception as e:  # noqa: BLE001
         return ("exc", type(e).__name__, str(e)[:200])
     return ("ok", dict(pr.peptide_map), dict(pr.shared_peptides), dict(pr.protein_map), bool(pr.has_decoys))
@@ -334,16 +383,28 @@ def model_requests(case, pepsets):
             req("gspec", pepsets), req("gwf", pepsets)]
 
 
+def seq_request(case, en=0):
+    """`groupseq`: the model from the (name, sequence) entries on, Lean digest included"""
+    d = case["digest"]
+    cls, nn = ENZ[d["enzyme"]]
+    return req("groupseq", case["prefix"], en, cls, nn, d["mc"], d["minl"], d["maxl"], d["clip"], d["semi"],
+               [[nm, seq] for nm, seq in case["entries"]])
+
+
 def parse_model(resp):
     if resp.strip() == "reject-only-decoys":
         return None
     if resp.strip() == "reject-keyerror":
         return "keyerror"
     v = dec(resp)
-    if not (isinstance(v, list) and len(v) == 5):
+    if not (isinstance(v, list) and len(v) in (5, 6)):
         raise RuntimeError("driver: " + resp[:200])
-    um, sh, dm, hd, gs = v
+    um, sh, dm, hd, gs = v[:5]
+    extra = {}
+    if len(v) == 6:  # groupseq: the peptide set the Lean digest model gives every entry, in entry order
+        extra = dict(pepsets=[(a_str(nm), frozenset(a_str(x) for x in ps)) for nm, ps in v[5]])
     return dict(
+        extra,
         unique={a_str(p): tuple(a_str(x) for x in g) for p, g in um},
         shared={a_str(p): frozenset(tuple(a_str(x) for x in g) for g in s) for p, s in sh},
         pmap={a_str(t): a_str(d) for t, d in dm},
@@ -418,19 +479,27 @@ def eval_cases(chk, cases, perms=2, light=False):
     """impl vs model vs spec on every case, plus `perms` permuted entry orders per case"""
     logging.disable(logging.CRITICAL)
     rng = chk.rng
-    lines, metas = [], []
-    for c in cases:
+    lines, metas, offs = [], [], []
+    for k, c in enumerate(cases):
         ps = entry_pepsets(c, c["entries"])
         metas.append(ps)
+        offs.append(len(lines))
         lines += model_requests(c, ps)
-    resp = common.driver_batch(lines)
+        # the sequence-level model (independent digest oracle): two of three random cases, every 4th of a sweep
+        if c["digest"]["enzyme"] in ENZ and (k % 4 == 0 if light else k % 3 != 2):
+            lines.append(seq_request(c, en=k % 2))
+        else:
+            lines.append(None)
+    resp_it = iter(common.driver_batch([ln for ln in lines if ln is not None]))
+    resp = [next(resp_it) if ln is not None else None for ln in lines]
     for k, c in enumerate(cases):
         pepsets = metas[k]
-        r0, r1, rs, rw = resp[4 * k: 4 * k + 4]
+        r0, r1, rs, rw, rq = resp[offs[k]: offs[k] + 5]
         wf = a_bool(rw.strip())
         try:
             model = parse_model(r0)
             model_rev = parse_model(r1)
+            mseq = parse_model(rq) if rq is not None else "skipped"
         except Exception as e:  # driver glue problem: framework error, surface it
             raise RuntimeError(f"cannot parse driver answer: {e}")
         spec = parse_spec(rs)
@@ -442,6 +511,14 @@ def eval_cases(chk, cases, perms=2, light=False):
             chk.count("decoys", c["dmode"])
             chk.count("digest", c["dg"])
             chk.count("files", c["fmt"]["nfiles"])
+            call = c.get("call") or {}
+            chk.count("enzyme", c["digest"]["enzyme"])
+            chk.count("peptide_residues", c.get("pepstyle", "K"))
+            chk.count("enzyme_form", call.get("enz", "str"))
+            chk.count("files_form", call.get("files", "str/list"))
+            chk.count("defaults_omitted", bool(call.get("omit")))
+        if mseq != "skipped":
+            chk.count("seq_oracle", "wf" if wf else "dup-names")
         if not wf:
             # duplicate protein names: outside the property (dict overwrite); correspondence only
             chk.count("excluded", "duplicate-names")
@@ -461,6 +538,9 @@ def eval_cases(chk, cases, perms=2, light=False):
             if (ci["unique"], ci["shared"], ci["pmap"], ci["has_decoys"]) != (
                     model["unique"], model["shared"], model["pmap"], model["has_decoys"]):
                 chk.corr_break("group", dict(case=c, impl=show(ci), model=show(model), note="duplicate names"))
+            elif isinstance(mseq, dict) and (ci["unique"], ci["shared"], ci["pmap"], ci["has_decoys"]) != (
+                    mseq["unique"], mseq["shared"], mseq["pmap"], mseq["has_decoys"]):
+                chk.corr_break("groupseq", dict(case=c, impl=show(ci), model=show(mseq), note="duplicate names"))
             continue
         # ---- inside the quantifier ----
         if raw[0] == "exc":
@@ -470,6 +550,8 @@ def eval_cases(chk, cases, perms=2, light=False):
                 chk.case(None, None)
                 if model is not None:
                     chk.corr_break("group", dict(case=c, impl=list(raw), model="ok"))
+                elif mseq not in ("skipped", None):
+                    chk.corr_break("groupseq", dict(case=c, impl=list(raw), model="ok"))
                 continue
             chk.case(None, None)
             chk.spec_violation("exception:" + raw[1], dict(case=c, error=raw[2], pepsets=pepsets,
@@ -506,6 +588,20 @@ def eval_cases(chk, cases, perms=2, light=False):
             chk.corr_break("group", dict(case=c, pepsets=pepsets, impl=show(ci), model=show(model)))
         elif model_rev is None or model_rev == "keyerror" or setform(model_rev) != setform(model):
             chk.corr_break("group-enum", dict(case=c, note="model result depends on the enumeration order"))
+        # 2b. the sequence-level model: (i) the peptide sets used as the reference above (taken from
+        # mokapot.digest) equal the ones the Lean digest model derives from the sequences — an oracle
+        # independent of mokapot; (ii) read_fasta equals the model run from the sequences
+        if mseq != "skipped":
+            if mseq is None or mseq == "keyerror":
+                chk.corr_break("groupseq", dict(case=c, impl=show(ci), model=f"reject:{mseq}"))
+            elif mseq["pepsets"] != [(nm, frozenset(ps)) for nm, ps in pepsets]:
+                chk.corr_break("digest-oracle", dict(
+                    case=c, mokapot_digest=pepsets,
+                    lean_digest=[[nm, sorted(ps)] for nm, ps in mseq["pepsets"]],
+                    note="mokapot.digest differs from the Lean digest model on an entry's sequence"))
+            elif (ci["unique"], ci["shared"], ci["pmap"], ci["has_decoys"]) != (
+                    mseq["unique"], mseq["shared"], mseq["pmap"], mseq["has_decoys"]):
+                chk.corr_break("groupseq", dict(case=c, pepsets=pepsets, impl=show(ci), model=show(mseq)))
         # 3. entry-order independence on the real code
         n = len(c["entries"])
         for t in range(perms):
@@ -571,6 +667,221 @@ def show(c):
                 pmap=dict(sorted(c["pmap"].items())), has_decoys=c.get("has_decoys"))
 
 
+
+# ----------------------------------------------------------------------------
+# `_group_proteins(proteins, peptides)` called directly (anchor fasta.py:515-563)
+# ----------------------------------------------------------------------------
+def gen_direct(rng, big=False):
+    """(proteins dict, peptides dict) of a random incidence structure, both in random insertion order"""
+    rows, m, pat = gen_incidence(rng, big)
+    rows = [r for r in rows if r]
+    if not rows:
+        rows = [[0]]
+    n = len(rows)
+    style = rng.choice(["plain", "plain", "odd", "prefixed"])
+    if style == "plain":
+        names = [f"P{i}" for i in range(n)]
+    elif style == "odd":
+        names = [rng.choice(["a,b", "x;", "P", "p", "A,", ",B", "Z|z", "1"]) + str(i) for i in range(n)]
+    else:
+        names = [("decoy_" if rng.random() < 0.5 else "") + f"Q{i // 2}" + ("" if i % 2 else "b") for i in range(n)]
+    pepn = [pep_string(j, body=rng.choice([2, 3])) for j in range(m)] if rng.random() < 0.7 else [f"p{j}" for j in range(m)]
+    order = list(range(n))
+    rng.shuffle(order)
+    prots = []
+    for i in order:
+        r = list(rows[i])
+        rng.shuffle(r)
+        prots.append([names[i], [pepn[j] for j in r]])
+    # the peptides dict is filled in another order than the proteins dict
+    order2 = list(range(n))
+    rng.shuffle(order2)
+    index = {}
+    for i in order2:
+        r = list(rows[i])
+        rng.shuffle(r)
+        for j in r:
+            index.setdefault(pepn[j], []).append(names[i])
+    pm = [[p, qs] for p, qs in index.items()]
+    extra = 0
+    if rng.random() < 0.1:  # keys no protein has (empty sets): allowed by the precondition
+        extra = rng.randint(1, 2)
+        for x in range(extra):
+            pm.insert(rng.randrange(len(pm) + 1), [f"zz{x}", []])
+    return dict(kind="direct", prots=prots, pm=pm, pat=pat, nstyle=style, extra_keys=extra)
+
+
+def impl_direct(case):
+    """the real _group_proteins on fresh dict / set objects; returns the raw return values"""
+    from collections import defaultdict
+
+    from mokapot.parsers.fasta import _group_proteins
+
+    proteins = {nm: set(ps) for nm, ps in case["prots"]}
+    peptides = defaultdict(set)
+    for p, qs in case["pm"]:
+        peptides[p]  # key order as given
+        for q in qs:
+            peptides[p].add(q)
+    try:
+        grouped, ret = _group_proteins(proteins, peptides)
+    except Exception as e:  # noqa: BLE001
+        return ("exc", type(e).__name__, str(e)[:200])
+    return ("ok", {k: set(v) for k, v in grouped.items()}, [(p, set(v)) for p, v in ret.items()],
+            ret is peptides)
+
+
+def direct_clause_check(case, grouped, index):
+    """the clauses of the property restated on both return values of _group_proteins.
+    grouped: {member tuple: peptide set}; index: [(peptide, {member tuple…})…] in returned key order"""
+    prot = {nm: set(ps) for nm, ps in case["prots"]}
+    for g in grouped:
+        if len(set(g)) != len(g) or any(mb not in prot for mb in g):
+            return "group-members-are-distinct-known-proteins"
+    for nm in prot:
+        if not any(nm in g for g in grouped):
+            return "every-protein-grouped"
+    for g, S in grouped.items():
+        if not any(prot[mb] == S for mb in g):
+            return "group-set-is-a-member-set"
+        if not all(prot[mb] <= S for mb in g):
+            return "members-are-subsets"
+        for nm, ps in prot.items():
+            if ps <= S and nm not in g:
+                return "group-contains-every-protein-inside-it"
+    for g1, g2 in itertools.permutations(grouped, 2):
+        if grouped[g1] <= grouped[g2]:
+            return "no-group-contained-in-another"
+    if [p for p, _ in index] != [p for p, _ in case["pm"]]:
+        return "returned-peptides-keep-their-keys"
+    for p, gs in index:
+        if gs != {g for g, S in grouped.items() if p in S}:
+            return "returned-peptides-list-exactly-the-groups-containing-the-peptide"
+    return None
+
+
+def parse_direct(resp):
+    if resp.strip() == "reject-keyerror":
+        return "keyerror"
+    v = dec(resp)
+    if not (isinstance(v, list) and len(v) == 2):
+        raise RuntimeError("driver: " + resp[:200])
+    gs, ix = v
+    return dict(groups={tuple(a_str(x) for x in g): frozenset(a_str(x) for x in S) for g, S in gs},
+                index=[(a_str(p), frozenset(tuple(a_str(x) for x in g) for g in ks)) for p, ks in ix])
+
+
+def direct_setform(d):
+    return (frozenset((frozenset(g), S) for g, S in d["groups"].items()),
+            {p: frozenset(frozenset(g) for g in ks) for p, ks in d["index"]})
+
+
+def show_direct(d):
+    return dict(grouped={", ".join(g): sorted(S) for g, S in d["groups"].items()},
+                peptides={p: sorted(", ".join(g) for g in ks) for p, ks in d["index"]})
+
+
+def direct_key(case):
+    idx = {}
+    return ("direct",) + tuple(tuple(sorted(idx.setdefault(p, len(idx)) for p in ps)) for _, ps in case["prots"])
+
+
+def eval_direct(chk, cases, light=False):
+    """_group_proteins: implementation vs spec (restated + driver `gdspec`) vs model (`gdirect`)"""
+    logging.disable(logging.CRITICAL)
+    lines = []
+    for c in cases:
+        keys = [p for p, _ in c["pm"]]
+        lines += [req("gdirect", 0, c["prots"], c["pm"]), req("gdirect", 1, c["prots"], c["pm"]),
+                  req("gdspec", c["prots"], keys), req("gdwf", c["prots"], c["pm"])]
+    resp = common.driver_batch(lines)
+    for k, c in enumerate(cases):
+        r0, r1, rs, rw = resp[4 * k: 4 * k + 4]
+        try:
+            model, model_rev, spec = parse_direct(r0), parse_direct(r1), parse_direct(rs)
+        except Exception as e:
+            raise RuntimeError(f"cannot parse driver answer: {e}")
+        if not a_bool(rw.strip()):  # the generator only builds inputs inside the precondition
+            raise RuntimeError(f"direct-call generator produced an input outside the precondition: {c}")
+        raw = impl_direct(c)
+        n = len(c["prots"])
+        if not light:
+            chk.count("direct_proteins", n if n < 10 else "10+")
+            chk.count("direct_pattern", c["pat"])
+            chk.count("direct_names", c["nstyle"])
+            chk.count("direct_extra_keys", c["extra_keys"])
+        if raw[0] == "exc":
+            chk.case(None, None)
+            chk.spec_violation("group_proteins:exception:" + raw[1],
+                               dict(case=c, error=raw[2], clause="_group_proteins raised on a well-formed input"))
+            continue
+        impl = dict(groups={tuple(g.split(", ")): frozenset(S) for g, S in raw[1].items()},
+                    index=[(p, frozenset(tuple(g.split(", ")) for g in ks)) for p, ks in raw[2]])
+        nontriv = n >= 2 and (any(len(g) >= 2 for g in impl["groups"]) or any(len(ks) >= 2 for _, ks in impl["index"]))
+        chk.case(None, direct_key(c) if nontriv else None,
+                 sample=dict(proteins=c["prots"], peptides=c["pm"], impl=show_direct(impl),
+                             model=show_direct(model) if isinstance(model, dict) else model))
+        if not light:
+            chk.count("direct_groups", len(impl["groups"]) if len(impl["groups"]) < 8 else "8+")
+            chk.count("direct_protein_in_two_groups",
+                      any(sum(nm in g for g in impl["groups"]) >= 2 for nm, _ in c["prots"]))
+            chk.count("direct_peptides_mutated_in_place", bool(raw[3]))
+        # 1. spec on both return values
+        clause = None
+        if len(raw[1]) != len(impl["groups"]):
+            clause = "group-names-distinct"
+        clause = clause or direct_clause_check(c, {g: set(S) for g, S in impl["groups"].items()},
+                                               [(p, set(ks)) for p, ks in impl["index"]])
+        if clause is None and direct_setform(impl) != direct_setform(spec):
+            clause = "differs-from-maximal-subset-characterisation"
+        if clause is not None:
+            chk.spec_violation("group_proteins:" + clause,
+                               dict(case=c, impl=show_direct(impl), expected=show_direct(spec), clause=clause))
+            continue
+        # 2. implementation vs model: exact member order of the group names, exact key order of the
+        # returned peptides dict; dict order of `grouped` and set contents as sets
+        if model == "keyerror":
+            chk.corr_break("gdirect", dict(case=c, impl=show_direct(impl), model="reject:keyerror"))
+        elif (impl["groups"], impl["index"]) != (model["groups"], model["index"]):
+            chk.corr_break("gdirect", dict(case=c, impl=show_direct(impl), model=show_direct(model)))
+        elif model_rev == "keyerror" or direct_setform(model_rev) != direct_setform(model):
+            chk.corr_break("gdirect-enum", dict(case=c, note="model result depends on the enumeration order"))
+
+
+def direct_exhaustive_cases(scopes, orders):
+    """every incidence structure (all proteins non-empty) for the (n, m) of `scopes`, the proteins dict in
+    every insertion order (at most `orders` of them), the peptides dict filled in reverse"""
+    cases = []
+    for n, m in scopes:
+        subsets = [[j for j in range(m) if (mask >> j) & 1] for mask in range(1, 1 << m)]
+        for rows in itertools.product(subsets, repeat=n):
+            for o, perm in enumerate(itertools.permutations(range(n))):
+                if o >= orders:
+                    break
+                prots = [[f"P{i}", [f"p{j}" for j in rows[i]]] for i in perm]
+                index = {}
+                for i in reversed(perm):
+                    for j in reversed(rows[i]):
+                        index.setdefault(f"p{j}", []).append(f"P{i}")
+                cases.append(dict(kind="direct", prots=prots, pm=[[p, qs] for p, qs in index.items()],
+                                  pat="exhaustive", nstyle="plain", extra_keys=0))
+    return cases
+
+
+def direct_exhaustive(chk, scopes, orders):
+    cases = direct_exhaustive_cases(scopes, orders)
+    for i in range(0, len(cases), 5000):
+        eval_direct(chk, cases[i:i + 5000], light=True)
+        if chk.spec_violations:
+            break
+    chk.extra["direct_exhaustive_sweep"] = (
+        f"_group_proteins called directly on all incidence structures (every protein non-empty) for (proteins, "
+        f"peptides) in {scopes}, proteins dict in up to {orders} insertion orders: {len(cases)} cases")
+
+
+DSCOPE_QUICK = [(n, m) for n in range(1, 4) for m in range(1, 4)]
+DSCOPE_THOROUGH = [(n, m) for n in range(1, 5) for m in range(1, 4)] + [(3, 4)]
+
 # ----------------------------------------------------------------------------
 # exhaustive small scope
 # ----------------------------------------------------------------------------
@@ -625,6 +936,27 @@ def minimise(chk):
     if "case" not in info:
         return
     c0 = info["case"]
+    if c0.get("kind") == "direct":
+        def restrict(prots):
+            names = {nm for nm, _ in prots}
+            return dict(c0, prots=prots, pm=[[p, [q for q in qs if q in names]] for p, qs in c0["pm"]])
+
+        def fails_d(prots):
+            sub = common.Check(chk.prop, chk.tier, chk.seed)
+            try:
+                eval_direct(sub, [restrict(prots)])
+            except Exception:
+                return False
+            return any(s == sig for s, _ in sub.spec_violations)
+
+        if fails_d(c0["prots"]):
+            small = common.shrink_list(c0["prots"], fails_d)
+            sub = common.Check(chk.prop, chk.tier, chk.seed)
+            eval_direct(sub, [restrict(small)])
+            hit = [i for sg, i in sub.spec_violations if sg == sig]
+            if hit:
+                chk.spec_violations[0] = (sig, dict(hit[0], shrunk_from_proteins=len(c0["prots"])))
+        return
 
     def fails(entries):
         sub = common.Check(chk.prop, chk.tier, chk.seed)
@@ -652,6 +984,10 @@ def search(chk):
     cases = [gen_case(rng, big=True) for _ in range(3000)]
     eval_cases(chk, cases, perms=3)
     if not chk.spec_violations:
+        eval_direct(chk, [gen_direct(rng, big=True) for _ in range(4000)])
+    if not chk.spec_violations:
+        direct_exhaustive(chk, DSCOPE_THOROUGH, orders=4)
+    if not chk.spec_violations:
         exhaustive(chk, SCOPE_THOROUGH, perms=2)
     if not chk.spec_violations:
         hash_seed_runs(chk, cases[:400], [1, 2, 3, 4])
@@ -659,7 +995,8 @@ def search(chk):
 
 
 def main(chk, args):
-    build = common.build_and_audit("C16", extra_targets=["MokapotVerif.Mutants.Grouping"])
+    build = common.build_and_audit("C16", extra_targets=["MokapotVerif.Mutants.Grouping",
+                                                         "MokapotVerif.Mutants.GroupingExt"])
     if not build.driver_ok:
         chk.finish(build, RULE)
     rng = chk.rng
@@ -673,13 +1010,22 @@ def main(chk, args):
         wf_cases = [c for c in cases if len({e[0] for e in c["entries"]}) == len(c["entries"])]
         hash_seed_runs(chk, wf_cases[:400] if quick else wf_cases[:4000], [1, 2] if quick else [1, 2, 3, 4])
         exhaustive(chk, SCOPE_QUICK if quick else SCOPE_THOROUGH, perms=1 if quick else 3)
+        # the anchored _group_proteins called directly (both return values)
+        dcases = [gen_direct(rng, big=(i % 4 == 0)) for i in range(1200 if quick else 12000)]
+        for i in range(0, len(dcases), 3000):
+            eval_direct(chk, dcases[i:i + 3000])
+        direct_exhaustive(chk, DSCOPE_QUICK if quick else DSCOPE_THOROUGH, orders=4)
         minimise(chk)
     finally:
         cleanup()
     lc = common.leanchecker("C16") if chk.tier == "thorough" else None
     chk.assumptions += [
-        "each entry's peptide set is taken from the real mokapot.digest (its correctness is property C17); the "
-        "model starts from the list of (protein name, peptide set) in FASTA order",
+        "each entry's peptide set is taken from the real mokapot.digest with the options of the case and is "
+        "cross-checked against the Lean digest model of C17 run on the entry's sequence (op groupseq; enzymes "
+        "[KR], K, [KR](?!P)); the model `group` starts from the list of (protein name, peptide set) in FASTA "
+        "order, the model `groupseq` from the list of (protein name, sequence)",
+        "_group_proteins is called directly with a `peptides` dict that is the inverted incidence of the "
+        "`proteins` dict (its precondition, `IsRawIndex`; extra keys with empty sets allowed)",
         "FASTA text parsing (_parse_fasta_files/_parse_protein) is exercised by construction (known names and "
         "sequences, varied wrapping/descriptions/files) but not modelled",
         "CPython dict keeps insertion order, sorted() is stable, set operations behave as documented; the "
@@ -698,7 +1044,10 @@ def replay(chk, path):
         return 0
     common.build_and_audit("C16")
     try:
-        eval_cases(chk, [info["case"]], perms=4)
+        if info["case"].get("kind") == "direct":
+            eval_direct(chk, [info["case"]])
+        else:
+            eval_cases(chk, [info["case"]], perms=4)
         if info.get("signature", "").startswith("hash-dependence"):
             hash_seed_runs(chk, [info["case"]], [1, 2, 3, 4, 5, 6])
     finally:
